@@ -488,7 +488,8 @@ package channel
 //@ end
 //@ interface StateApp
 //@   method ValidTransition
-//@     requires recv != nil
+//@     requires recv != nil && arg1 != nil && arg2 != nil && validAlloc(arg1.Allocation) && validAlloc(arg2.Allocation)
+//@     requires len(arg1.Balances) == len(arg2.Balances) && len(arg1.Balances[0]) == len(arg2.Balances[0])
 //@     ensures (result == nil) == appTransOK(recv, arg0, arg1, arg2, arg3)
 //@   method ValidInit
 //@     requires recv != nil
@@ -512,7 +513,12 @@ package channel
 //@ pred validSucc(m *machine, to *State) =
 //@   to.ID == m.params.id && appEq(m.params.App, to.App) && !m.currentTX.State.IsFinal &&
 //@   to.Version == m.currentTX.State.Version + 1 && validAlloc(to.Allocation) &&
+//@   len(to.Balances[0]) == len(m.params.Parts) &&
 //@   assetsEq(m.currentTX.State.Assets, to.Assets) && sumsEq(m.currentTX.State, to)
+
+// allocFor(m, s): s carries a well-formed allocation with one balance column per channel participant. Holds for every
+// state accepted by Init (newState) and by Update/CheckUpdate (validSucc), i.e. for "current states reachable by accepted updates".
+//@ pred allocFor(m *machine, s *State) = validAlloc(s.Allocation) && len(s.Balances[0]) == len(m.params.Parts)
 
 //@ pred stateWF(s *State) = s != nil && s.App != nil && nonNilAssets(s.Assets) && nonNilBalances(s.Balances) && nonNilLocked(s.Locked)
 
@@ -531,6 +537,7 @@ package channel
 
 //@ func (*StateMachine).validTransition
 //@   requires smWF(m) && stateWF(m.currentTX.State) && stateWF(to) && m.currentTX.State.Version < 18446744073709551615
+//@   requires allocFor(m.machine, m.currentTX.State)
 //@   ensures err == nil <==> validSuccSM(m, to, actor)
 
 // staged(m, s): s is staged with a fresh, empty signature list; the current transaction is untouched.
@@ -539,10 +546,11 @@ package channel
 //@   allNil(m.stagingTX.Sigs) && sameTX(m.currentTX, old(m.currentTX)) && sigsSame(m.currentTX.Sigs)
 
 //@ func (*StateMachine).Update
-//@   requires smWF(m) && stateWF(stagingState) && (m.phase == Acting ==> stateWF(m.currentTX.State) && m.currentTX.State.Version < 18446744073709551615)
+//@   requires smWF(m) && stateWF(stagingState) && (m.phase == Acting ==> stateWF(m.currentTX.State) && m.currentTX.State.Version < 18446744073709551615 && allocFor(m.machine, m.currentTX.State))
 //@   modifies m.machine.phase, m.machine.stagingTX
 //@   ensures machInv(m.machine)
 //@   ensures result == nil <==> old(m.phase == Acting && validSuccSM(m, stagingState, actor))
+//@   ensures result == nil ==> allocFor(m.machine, stagingState)
 //@   ensures result == nil ==> staged(m.machine, stagingState, Signing)
 //@   ensures result != nil ==> unchanged(m.machine)
 
@@ -554,6 +562,7 @@ package channel
 
 //@ func (*StateMachine).CheckUpdate
 //@   requires smWF(m) && stateWF(m.currentTX.State) && stateWF(state) && m.currentTX.State.Version < 18446744073709551615 && sigIdx < len(m.params.Parts)
+//@   requires allocFor(m.machine, m.currentTX.State)
 //@   ensures result == nil <==> validSuccSM(m, state, actor) &&
 //@           (forall b wallet.BackendID :: has(m.params.Parts[sigIdx], b) ==> verifyOK(m.params.Parts[sigIdx][b], state, sig))
 //@   ensures unchanged(m.machine)
@@ -580,6 +589,7 @@ package channel
 //@           m.stagingTX.State.Version == 0 && m.stagingTX.State.ID == m.params.id && m.stagingTX.State.Allocation == initBals && validAlloc(initBals) &&
 //@           (forall i int :: 0 <= i && i < len(initBals.Balances) ==> len(initBals.Balances[i]) == len(m.params.Parts)) &&
 //@           appInitOK(m.app, &m.machine.params, m.stagingTX.State)
+//@   ensures result == nil ==> allocFor(m.machine, m.stagingTX.State)
 //@   ensures result == nil ==> staged(m.machine, m.stagingTX.State, InitSigning)
 //@   ensures old(m.phase) != InitActing ==> result != nil
 //@   ensures result != nil ==> unchanged(m.machine)
@@ -738,3 +748,10 @@ package channel
 //@   loop 1
 //@     modifies
 //@     invariant forall k wallet.BackendID :: visited(k) ==> wAddrEq(a[k], b[k])
+
+// The no-app (C02): every transition is allowed, an initial state must carry NoData.
+//@ func (noApp).ValidTransition
+//@   ensures result == nil
+//@ func (noApp).ValidInit
+//@   requires s != nil
+//@   ensures result == nil <==> typeof(s.Data) == typetag("*noData")
